@@ -779,6 +779,7 @@ type Inst struct {
 	liveG  int // goroutines of the harness that sit in a synchronous CheckTx call (v1)
 
 	Inconclusive string // a wait ran into its (generous) timeout: nothing is concluded from this execution
+	Stacks       string
 	Panic        string // the real code panicked in this execution (diagnostic)
 	Diags        []string
 	Outcome      string
@@ -798,6 +799,13 @@ func NewInst(ad Adapter, c Cfg) *Inst {
 		}
 	})
 	return in
+}
+
+func (in *Inst) inconclusive(what string) {
+	in.Inconclusive = what
+	buf := make([]byte, 1<<16)
+	n := runtime.Stack(buf, true)
+	in.Stacks = string(buf[:n])
 }
 
 func (in *Inst) diag(s string) {
@@ -846,7 +854,7 @@ func (in *Inst) waitG() {
 			time.Sleep(20 * time.Microsecond)
 		}
 		if i%256 == 255 && time.Now().After(dl) {
-			in.Inconclusive = "goroutines of the mempool did not end"
+			in.inconclusive("goroutines of the mempool did not end")
 			return
 		}
 	}
@@ -897,7 +905,7 @@ func (in *Inst) doCheck(t, peer int) (issued bool, err error) {
 			q := in.Conn.Snapshot()
 			q[len(q)-1].Done = done
 		case <-tm.C:
-			in.Inconclusive = "CheckTx neither returned nor reached the connection"
+			in.inconclusive("CheckTx neither returned nor reached the connection")
 			return false, nil
 		}
 	}
@@ -949,7 +957,7 @@ func (in *Inst) doDeliver(i int, v Verdict) (p *Pend) {
 				}
 			}
 		case <-tm.C:
-			in.Inconclusive = "CheckTx did not return after its response"
+			in.inconclusive("CheckTx did not return after its response")
 		}
 		return p
 	}
@@ -961,7 +969,7 @@ func (in *Inst) doDeliver(i int, v Verdict) (p *Pend) {
 			in.Pool.Lock()
 			in.Pool.Unlock() //nolint
 		case <-tm.C:
-			in.Inconclusive = "recheck handler did not run"
+			in.inconclusive("recheck handler did not run")
 		}
 	}
 	// When the tx is not indexed the handler returns without changing anything; nothing to wait for.
@@ -1139,7 +1147,7 @@ func (in *Inst) applyCommit(op Op) *Viol {
 			select {
 			case <-in.Conn.Arrived:
 			case <-tm.C:
-				in.Inconclusive = "recheck requests did not reach the connection"
+				in.inconclusive("recheck requests did not reach the connection")
 				tm.Stop()
 				return nil
 			}
@@ -1341,24 +1349,38 @@ func (in *Inst) Queries() []ReapQ {
 		n := n
 		qs = append(qs, ReapQ{MaxTxs: &n})
 	}
+	// byte and gas limits: every boundary (cumulative size of each prefix, and one below) for each limit alone,
+	// and the exact prefix boundaries of both limits combined
 	bs := []int64{-1, 0}
 	gs := []int64{-1, 0}
+	var be, ge []int64
 	var g int64
 	for k := 1; k <= len(e); k++ {
 		b := protoSize(e[:k])
 		bs = append(bs, b-1, b)
+		be = append(be, b)
 		g += in.gas[e[k-1]]
 		gs = append(gs, g-1, g)
+		ge = append(ge, g)
 	}
 	seen := map[[2]int64]bool{}
+	add := func(b, g int64) {
+		if b < -1 || g < -1 || seen[[2]int64{b, g}] {
+			return
+		}
+		seen[[2]int64{b, g}] = true
+		qs = append(qs, ReapQ{MaxBytes: &b, MaxGas: &g})
+	}
 	for _, b := range bs {
-		for _, g := range gs {
-			if b < -1 || g < -1 || seen[[2]int64{b, g}] {
-				continue
-			}
-			seen[[2]int64{b, g}] = true
-			b, g := b, g
-			qs = append(qs, ReapQ{MaxBytes: &b, MaxGas: &g})
+		add(b, -1)
+	}
+	for _, g := range gs {
+		add(-1, g)
+	}
+	add(0, 0)
+	for _, b := range be {
+		for _, g := range ge {
+			add(b, g)
 		}
 	}
 	return qs
@@ -1505,8 +1527,32 @@ func RunCase(ad Adapter, c Case) (*Viol, *Inst) {
 // search
 
 type node struct {
-	path []Op
-	q    []uint8 // kinds of the unanswered requests: 0 first-time, 1 recheck
+	path []uint16 // indices into the operation table
+	q    []uint8  // kinds of the unanswered requests: 0 first-time, 1 recheck
+	h    [32]byte // hash of the canonical state
+}
+
+var (
+	opTable []Op
+	opIdx   = map[string]uint16{}
+)
+
+func opID(o Op) uint16 {
+	k := o.String()
+	if i, ok := opIdx[k]; ok {
+		return i
+	}
+	opTable = append(opTable, o)
+	opIdx[k] = uint16(len(opTable) - 1)
+	return uint16(len(opTable) - 1)
+}
+
+func pathOps(p []uint16) []Op {
+	out := make([]Op, len(p))
+	for i, k := range p {
+		out[i] = opTable[k]
+	}
+	return out
 }
 
 func enabled(ver int, b Bounds, n *node, commits []Op) []Op {
@@ -1554,111 +1600,139 @@ func enabled(ver int, b Bounds, n *node, commits []Op) []Op {
 	return ops
 }
 
-// Stats of one search.
-type Stats struct {
-	States, Transitions, Traces int64
-	Depth                       int
-	Completed                   bool
+// search is the breadth-first search of one configuration; levels are driven from outside so that all
+// configurations of a shard advance together (the depth completed is the same for all of them).
+type search struct {
+	r         *vr.Report
+	ad        Adapter
+	c         Cfg
+	b         Bounds
+	commits   []Op
+	visited   map[[32]byte]struct{}
+	frontier  []*node
+	confirmed map[string]bool
+	States    int64
+	Trans     int64
+	Closed    bool // the frontier ran empty: the reachable space is closed
 }
 
-// Explore runs the breadth-first search for one configuration. It returns the depth completed.
-func Explore(r *vr.Report, ad Adapter, c Cfg, b Bounds, deadline func() bool) Stats {
-	var st Stats
-	commits := commitOps(b)
-	visited := map[[32]byte]struct{}{}
+func newSearch(r *vr.Report, ad Adapter, c Cfg, b Bounds) *search {
+	s := &search{r: r, ad: ad, c: c, b: b, commits: commitOps(b), visited: map[[32]byte]struct{}{}, confirmed: map[string]bool{}}
 	root := NewInst(ad, c)
-	visited[sha256.Sum256([]byte(root.Canon()))] = struct{}{}
-	st.States = 1
-	observe(r, ad, c, root, nil, &st)
-	frontier := []*node{{}}
-	confirmed := map[string]bool{}
-	report := func(v *Viol, cs Case, in *Inst) {
-		if !confirmed[v.Key] {
-			ok := vr.Confirm(3, v, func() error {
-				v2, _ := RunCase(ad, cs)
-				if v2 == nil {
-					return nil
-				}
-				return v2
-			})
-			if !ok {
-				r.Cap("a violation did not reproduce identically in 3 re-runs (treated as inconclusive): " + v.Key)
-				r.Note("unstable: " + v.Key + " on " + strings.Join(in.Trace, " ; "))
-				return
+	h := sha256.Sum256([]byte(root.Canon()))
+	s.visited[h] = struct{}{}
+	s.States = 1
+	r.States++
+	s.observe(root, nil)
+	s.frontier = []*node{{h: h}}
+	return s
+}
+
+func (s *search) report(v *Viol, cs Case, in *Inst) {
+	r := s.r
+	if !s.confirmed[v.Key] {
+		ok := vr.Confirm(3, v, func() error {
+			v2, _ := RunCase(s.ad, cs)
+			if v2 == nil {
+				return nil
 			}
-			confirmed[v.Key] = true
+			return v2
+		})
+		if !ok {
+			r.Cap("a violation did not reproduce identically in 3 re-runs (treated as inconclusive): " + v.Key)
+			r.Note("unstable: " + v.Key + " on " + strings.Join(in.Trace, " ; "))
+			return
 		}
-		cs.Trace = strings.Join(in.Trace, " ; ")
-		r.Violation(v.Key, fmt.Sprintf("[%s] %s ; after: %s", c, v.What, cs.Trace), cs)
+		s.confirmed[v.Key] = true
 	}
-	for depth := 0; depth < b.Depth; depth++ {
-		var next []*node
-		for _, n := range frontier {
-			for _, op := range enabled(ad.Ver(), b, n, commits) {
-				if deadline() {
-					st.Depth = depth
-					return st
+	cs.Trace = strings.Join(in.Trace, " ; ")
+	r.Violation(v.Key, fmt.Sprintf("[%s] %s ; after: %s", s.c, v.What, cs.Trace), cs)
+}
+
+// rebuild replays an accepted path on a fresh real mempool.
+func (s *search) rebuild(n *node) *Inst {
+	r := s.r
+	in := NewInst(s.ad, s.c)
+	r.Traces++
+	for _, k := range n.path {
+		if v := in.Apply(opTable[k]); v != nil || in.Panic != "" || in.Inconclusive != "" || in.Dead {
+			if in.Inconclusive != "" {
+				r.Cap("inconclusive execution: " + in.Inconclusive)
+				r.Note("inconclusive: " + in.Inconclusive + " [" + s.c.String() + "] after: " + strings.Join(in.Trace, " ; ") + " STACKS " + in.Stacks)
+			} else {
+				r.Note("replay of an accepted path diverged: " + strings.Join(in.Trace, " ; "))
+				r.Cap("replay divergence (harness nondeterminism), path dropped")
+			}
+			in.Close()
+			return nil
+		}
+	}
+	return in
+}
+
+// level expands the whole frontier by one operation. It returns false when the time budget ran out.
+func (s *search) level(deadline func() bool) bool {
+	r, c := s.r, s.c
+	var next []*node
+	for _, n := range s.frontier {
+		// live: an instance that is in the state of n (rebuilt, or kept from a sibling operation that turned
+		// out to be a self-loop; by the merging argument both are interchangeable).
+		var live *Inst
+		for _, op := range enabled(s.ad.Ver(), s.b, n, s.commits) {
+			if deadline() {
+				if live != nil {
+					live.Close()
 				}
-				func() {
-					in := NewInst(ad, c)
-					defer in.Close()
-					ok := true
-					for _, o := range n.path {
-						if v := in.Apply(o); v != nil || in.Panic != "" || in.Inconclusive != "" || in.Dead {
-							ok = false
-							break
-						}
-					}
-					st.Traces++
-					r.Traces++
-					if !ok {
-						if in.Inconclusive != "" {
-							r.Cap("inconclusive execution: " + in.Inconclusive)
-						} else {
-							r.Note("replay of an accepted path diverged: " + strings.Join(in.Trace, " ; "))
-							r.Cap("replay divergence (harness nondeterminism), path dropped")
-						}
-						return
-					}
-					in.Diags = nil
-					viol := in.Apply(op)
-					st.Transitions++
-					r.Transitions++
-					r.Eval()
-					path := append(append([]Op(nil), n.path...), op)
-					for _, d := range in.Diags {
-						r.Add("diag_reference_divergence", 1)
-						r.Note("diag: [" + c.String() + "] " + d + " ; after: " + strings.Join(in.Trace, " ; "))
-					}
-					switch {
-					case viol != nil:
-						report(viol, Case{Cfg: c, Path: path}, in)
-						r.Outcome("VIOLATION " + viol.Key)
-						return
-					case in.Inconclusive != "":
-						r.Cap("inconclusive execution: " + in.Inconclusive)
-						return
-					case in.Panic != "":
-						r.Add("diag_panic", 1)
-						r.Outcome("panic: " + firstLine(in.Panic))
-						r.Note("diag: panic in real code [" + c.String() + "] " + firstLine(in.Panic) + " ; after: " + strings.Join(in.Trace, " ; "))
-						return
-					case in.Dead:
-						return
-					}
-					r.Outcome(in.Outcome)
-					h := sha256.Sum256([]byte(in.Canon()))
-					if _, seen := visited[h]; seen {
-						return
-					}
-					visited[h] = struct{}{}
-					st.States++
+				return false
+			}
+			in := live
+			live = nil
+			if in == nil {
+				if in = s.rebuild(n); in == nil {
+					continue
+				}
+			}
+			traceLen := len(in.Trace)
+			in.Diags = nil
+			viol := in.Apply(op)
+			s.Trans++
+			r.Transitions++
+			r.Eval()
+			path := append(append([]uint16(nil), n.path...), opID(op))
+			for _, d := range in.Diags {
+				r.Add("diag_reference_divergence", 1)
+				r.Note("diag: [" + c.String() + "] " + d + " ; after: " + strings.Join(in.Trace, " ; "))
+			}
+			switch {
+			case viol != nil:
+				s.report(viol, Case{Cfg: c, Path: pathOps(path)}, in)
+				r.Outcome("VIOLATION " + viol.Key)
+			case in.Inconclusive != "":
+				r.Cap("inconclusive execution: " + in.Inconclusive)
+				r.Note("inconclusive: " + in.Inconclusive + " [" + c.String() + "] after: " + strings.Join(in.Trace, " ; ") + " STACKS " + in.Stacks)
+			case in.Panic != "":
+				r.Add("diag_panic", 1)
+				r.Outcome("panic: " + firstLine(in.Panic))
+				r.Note("diag: panic in real code [" + c.String() + "] " + firstLine(in.Panic) + " ; after: " + strings.Join(in.Trace, " ; "))
+			case in.Dead:
+			default:
+				r.Outcome(in.Outcome)
+				h := sha256.Sum256([]byte(in.Canon()))
+				if h == n.h && len(in.Diags) == 0 {
+					// self-loop: the instance is still in the state of n, use it for the next sibling
+					in.Trace = in.Trace[:traceLen]
+					live = in
+					continue
+				}
+				if _, seen := s.visited[h]; !seen {
+					s.visited[h] = struct{}{}
+					s.States++
 					r.States++
 					if len(path) > r.MaxDepth {
 						r.MaxDepth = len(path)
 					}
-					observe(r, ad, c, in, path, &st)
-					nn := &node{path: path}
+					s.observe(in, path)
+					nn := &node{path: path, h: h}
 					for _, p := range in.Conn.Snapshot() {
 						k := uint8(0)
 						if p.Recheck {
@@ -1667,20 +1741,22 @@ func Explore(r *vr.Report, ad Adapter, c Cfg, b Bounds, deadline func() bool) St
 						nn.q = append(nn.q, k)
 					}
 					next = append(next, nn)
-					if st.States%4096 == 1 {
-						r.Sample(Case{Cfg: c, Path: path, Trace: strings.Join(in.Trace, " ; ")})
+					if s.States%2048 == 2 {
+						r.Sample(Case{Cfg: c, Path: pathOps(path), Trace: strings.Join(in.Trace, " ; ")})
 					}
-				}()
+				}
 			}
+			in.Close()
 		}
-		frontier = next
-		st.Depth = depth + 1
-		if len(frontier) == 0 {
-			st.Completed = true // the reachable space is closed
-			break
+		if live != nil {
+			live.Close()
 		}
 	}
-	return st
+	s.frontier = next
+	if len(next) == 0 {
+		s.Closed = true
+	}
+	return true
 }
 
 func firstLine(s string) string {
@@ -1695,14 +1771,16 @@ func firstLine(s string) string {
 
 // observe runs the reap queries (self-loop transitions) in a newly found state and classifies the state for
 // the vacuity counters.
-func observe(r *vr.Report, ad Adapter, c Cfg, in *Inst, path []Op, st *Stats) {
+func (s *search) observe(in *Inst, path16 []uint16) {
+	r, ad, c := s.r, s.ad, s.c
+	path := pathOps(path16)
 	before := in.Canon()
 	w := in.Walk()
 	for _, q := range in.Queries() {
 		q := q
 		in.Diags = nil
 		v := in.Reap(q)
-		st.Transitions++
+		s.Trans++
 		r.Transitions++
 		for _, d := range in.Diags {
 			r.Add("diag_reap_not_maximal", 1)
@@ -1802,26 +1880,53 @@ func RunSeq(ad Adapter, part string, quickBudget, thoroughBudget time.Duration, 
 		}
 		cfgs = append(append([]Cfg(nil), cfgs[k:]...), cfgs[:k]...)
 	}
-	minDepth := 1 << 30
-	closed := 0
-	mine := 0
+	var searches []*search
 	for k, c := range cfgs {
-		if !r.Mine(k) {
-			continue
+		if r.Mine(k) {
+			searches = append(searches, newSearch(r, ad, c, b))
 		}
-		mine++
-		st := Explore(r, ad, c, b, func() bool { return r.Deadline("breadth-first search") })
-		if st.Depth < minDepth {
-			minDepth = st.Depth
+	}
+	completed := 0
+	for depth := 0; depth < b.Depth; depth++ {
+		ok := true
+		open := 0
+		for _, s := range searches {
+			if s.Closed {
+				continue
+			}
+			if ok = s.level(func() bool { return r.Deadline(fmt.Sprintf("breadth-first search, level %d", depth+1)) }); !ok {
+				break
+			}
+			if !s.Closed {
+				open++
+			}
 		}
-		if st.Completed {
+		if !ok {
+			break
+		}
+		completed = depth + 1
+		if open == 0 {
+			completed = b.Depth // every reachable state of every configuration has been expanded
+			break
+		}
+	}
+	minDepth := completed
+	closed := 0
+	var smin, smax int64 = 1 << 60, 0
+	for _, s := range searches {
+		if s.Closed {
 			closed++
 		}
+		if s.States < smin {
+			smin = s.States
+		}
+		if s.States > smax {
+			smax = s.States
+		}
 		r.Add("configurations", 1)
-		r.Set(fmt.Sprintf("cfg[%s]", c), fmt.Sprintf("states=%d transitions=%d depth=%d closed=%v", st.States, st.Transitions, st.Depth, st.Completed))
 	}
-	if mine == 0 {
-		minDepth = b.Depth
+	if len(searches) > 0 {
+		r.Set(fmt.Sprintf("states_per_configuration_shard%d", r.Shard), fmt.Sprintf("min %d max %d", smin, smax))
 	}
 	bj, _ := json.Marshal(b)
 	r.Bound = fmt.Sprintf("all operation sequences up to depth %d in every configuration of this shard (bounds %s)", minDepth, bj)
